@@ -333,7 +333,7 @@ def tasks(tier):
                 for s1, s2, s3 in itertools.product(singles[:3], singles[3:6], singles[5:8]):
                     t.append(dict(harness="h_history", cfg=dict(obj=obj, n=list(shapes[nd]), steps=[dict(s1, inplace=True), dict(s2, inplace=False), dict(s3, inplace=True)],
                                                                 subregions="two" if obj == "mesh" else "none"),
-                                  limits=dict(wall_budget=1800.0)))
+                                  limits=dict(wall_budget=3000.0, timeout_ms=300000)))
     # meshes without subregions: symbolic scale factors (any sign), single steps and scale-then-step histories
     for nd in (1, 2, 3):
         singles = _steps(nd, quick)
